@@ -16,7 +16,10 @@ NASTY_NAMES = ["", "0", "1", "-1", "a b", "'", '"', "\\", "a'b", "/", "\n", "\t"
                # names whose CONTENT looks like quoting or escaping: backslash next to either quote, text that reads like an escape
                '\\"', '"\\', "\\'", "'\\", 'a\\"b', "\\\\", '\\"\\', "'\"", "\"'", "\\n", "\\u0041", "\\/", "\"\"", "''", "\\\"'",
                # plain names whose LAST or FIRST character alone needs an escape (anchored fast paths)
-               "a\n", "total\n", "x y\r", "\nab", "ab'", "ab\\", "a\u0000", "\tb"]
+               "a\n", "total\n", "x y\r", "\nab", "ab'", "ab\\", "a\u0000", "\tb",
+               # a backslash in the NAME followed by a letter that starts an escape in a literal: the escaped backslash of the normalized
+               # path must not be read together with what follows it (C:\users, \n as two characters, \u without hex digits, ...)
+               "C:\\users\\ada", "\\u", "\\ux", "a\\u12", "\\b\\f\\n\\r\\t", "\\\\u0041", "\\'", "\\usepackage"]
 # documents that are STRINGS whose content happens to be JSON text: they are strings, never decoded
 JSON_TEXT_STRINGS = ["1", "true", "null", "[1, 2]", '{"a": 1}', '"q"', "[1,", " 1", "1.5", "[]", "{}", "[[1]]", '{"a": {"a": [0]}}']
 SCALARS: List[Any] = [0, 1, -1, 2, 10, 1.5, -0.0, 1.0, 0.1, "", "a", "b", "ab", "0", "é", "😀", True, False, None,
